@@ -38,6 +38,9 @@ func (r *readOnlyFile) Stat() (hackpadfs.FileInfo, error) {
 }
 
 func (r *readOnlyFile) Truncate(size int64) error {
+	if err := r.file.checkClosed("truncate"); err != nil {
+		return err
+	}
 	// a read-only handle must never change the file's contents; os.File fails the same way
 	return &hackpadfs.PathError{Op: "truncate", Path: r.file.path, Err: hackpadfs.ErrInvalid}
 }
@@ -55,6 +58,9 @@ type writeOnlyFile struct {
 }
 
 func (w *writeOnlyFile) Read(p []byte) (n int, err error) {
+	if err := w.file.checkClosed("read"); err != nil {
+		return 0, err
+	}
 	// Read is required by hackpadfs.File
 	return 0, &hackpadfs.PathError{Op: "read", Path: w.file.path, Err: hackpadfs.ErrNotImplemented}
 }
